@@ -109,11 +109,7 @@ def eval_step(op, ins, p, entry="method"):
         return [sr.tensordot(x, y, axes, **kw)]
     if op == "matmul":
         y = ins[1]
-        r = x @ y
-        if not isinstance(r, sr.AbelianArray):
-            # scalar result: wrap as the rank-0 array the model returns
-            r = _wrap_scalar(x, y, r)
-        return [r]
+        return [x @ y]
     if op == "trace":
         if entry == "function":
             return [sr.trace(x)]
